@@ -49,7 +49,14 @@ func newC02Rig(x *mc.X) (*c02Rig, error) {
 		if err := client.SendNodeType(g.d.Nc, client.Sync{ID: "sync1", Parent: "devD", Description: "up", URI: urlU, Period: 1}, "creator"); err != nil {
 			return err
 		}
-		return client.SendNode(g.d.Nc, data.NodeEdge{ID: "A", Parent: "devD", Type: "vtest", Points: data.Points{{Type: "description", Text: "node A", Time: g.tick()}, {Type: "value", Value: 1, Time: g.tick()}}}, "creator")
+		if err := client.SendNode(g.d.Nc, data.NodeEdge{ID: "A", Parent: "devD", Type: "vtest", Points: data.Points{{Type: "description", Text: "node A", Time: g.tick()}, {Type: "value", Value: 1, Time: g.tick()}}}, "creator"); err != nil {
+			return err
+		}
+		// B is placed under the device and mirrored under A (two parents inside the device tree)
+		if err := client.SendNode(g.d.Nc, data.NodeEdge{ID: "B", Parent: "devD", Type: "vtest", Points: data.Points{{Type: "description", Text: "node B", Time: g.tick()}}}, "creator"); err != nil {
+			return err
+		}
+		return client.SendEdgePoints(g.d.Nc, "B", "A", data.Points{{Type: data.PointTypeTombstone, Time: g.tick()}, {Type: data.PointTypeNodeType, Text: "vtest"}}, true)
 	}, false)
 	if err != nil {
 		return g, err
@@ -190,6 +197,14 @@ func c02Ops() []c02Op {
 			p := data.Point{Type: "role", Text: "r" + s, Value: float64(g.clock % 1000), Time: g.tick(), Origin: "user" + s}
 			st.accept("edge:devD>A/role", p)
 			return true, client.SendEdgePoints(side(g, s).Nc, "A", "devD", data.Points{p}, true)
+		}})
+	}
+	for _, s := range []string{"D", "U"} {
+		s := s
+		ops = append(ops, c02Op{name: "edge point on the mirror placement A>B at " + s, do: func(g *c02Rig, st *c02State) (bool, error) {
+			p := data.Point{Type: "role", Text: "m" + s, Value: float64(g.clock % 1000), Time: g.tick(), Origin: "user" + s}
+			st.accept("edge:A>B/role", p)
+			return true, client.SendEdgePoints(side(g, s).Nc, "B", "A", data.Points{p}, true)
 		}})
 	}
 	for _, dis := range []bool{true, false} {
@@ -340,7 +355,7 @@ func c02Body(t *testing.T, depth, devBound int) mc.Body {
 				if op.tomb && (st.disabled || st.linkDown) && outageTomb == "" {
 					outageTomb = op.name
 				}
-				if !op.tomb && (st.disabled || st.linkDown) && st.aDeleted["any"] && strings.Contains(op.name, " on A ") && outageDeadWrite == "" {
+				if !op.tomb && (st.disabled || st.linkDown) && st.aDeleted["any"] && (strings.Contains(op.name, " on A ") || strings.Contains(op.name, "A>B")) && outageDeadWrite == "" {
 					outageDeadWrite = op.name
 				}
 				if !early {
@@ -405,7 +420,7 @@ func TestC02(t *testing.T) {
 			depth, dev = 4, 1
 		}
 		r.Explore(mc.Config{Name: fmt.Sprintf("histories-d%d-dev%d", depth, dev), Serial: true, SplitDepth: 2, DevBound: dev, StopAfterViolations: 40,
-			Rule: fmt.Sprintf("two real stores linked by the real SyncClient (period 1 s) after an initial catch-up; all histories of %d operations over 17 (point / edge point on a shared node at either side, node creation at either side, delete / undelete at either side, sync disabled = clean outage / re-enabled, link lost abruptly / restored, a sync period passes), %d scheduling deviations; then the link is brought up, 5 periods pass, and the device subtrees (deleted nodes included, every point with all fields) must be identical and hold the newest accepted write per identity", depth, dev)},
+			Rule: fmt.Sprintf("two real stores linked by the real SyncClient (period 1 s) after an initial catch-up; all histories of %d operations over 19 (point / edge point on a shared node and on the second placement of a mirrored node on a shared node at either side, node creation at either side, delete / undelete at either side, sync disabled = clean outage / re-enabled, link lost abruptly / restored, a sync period passes), %d scheduling deviations; then the link is brought up, 5 periods pass, and the device subtrees (deleted nodes included, every point with all fields) must be identical and hold the newest accepted write per identity", depth, dev)},
 			c02Body(t, depth, dev))
 		r.Assume("outages: the sync node disabled / re-enabled (clean disconnect) and abrupt loss of the sync client's upstream connection (queued deliveries lost, its publishes buffered and flushed on recovery, Disconnected/Reconnected handlers); a restart of the upstream store process is not modelled")
 		r.Assume("root edge points of the device node are not compared (the code excludes them from synchronisation)")
